@@ -359,6 +359,9 @@ package security
 
 //@ func (*Authenticator).handleSessionResumption (a, ctx, sessionID, clientAd, command) (result, err)
 //@   props C06
+//@   assert before call Message).PutClassAd #1 unknown_session_is_told_so: [C06] adKind[arg2]["ReturnCode"] == 1 && adStr[arg2]["ReturnCode"] == "SID_NOT_FOUND" && wantResponse
+//@   assert before call Message).PutClassAd #2 accepted_session_is_told_so: [C06] adStr[arg2]["ReturnCode"] == "AUTHORIZED" && adStr[arg2]["Sid"] == sessionID && wantResponse
+//@   assert before call Authenticator).setupStreamEncryption #1 identity_of_the_original_handshake: [C06] entry.policy != nil ==> (adKind[entry.policy]["User"] == 1 ==> arg1.User == adStr[entry.policy]["User"]) && (adKind[entry.policy]["Authenticated"] == 3 ==> arg1.Authentication == (adInt[entry.policy]["Authenticated"] == 1))
 //@   nocall [C19] caller_context_threaded: context.Background
 //@   nocall [C19] caller_context_threaded2: context.WithoutCancel
 //@   nocall [C19] caller_context_threaded3: context.TODO
@@ -371,6 +374,7 @@ package security
 // ---- client-side resumption (C06, C07) -----------------------------------------------------------
 //@ func (*Authenticator).resumeSession (a, ctx, entry, cache) (result, err)
 //@   props C06 C07
+//@   assert before call Message).PutClassAd #1 resumption_request_names_the_session: [C06 C07] adStr[arg2]["UseSession"] == "YES" && adStr[arg2]["Sid"] == entry.id && adKind[arg2]["ResumeResponse"] == 3 && adInt[arg2]["ResumeResponse"] == 1 && adInt[arg2]["Command"] == a.config.Command
 //@   nocall [C19] caller_context_threaded: context.Background
 //@   nocall [C19] caller_context_threaded2: context.WithoutCancel
 //@   nocall [C19] caller_context_threaded3: context.TODO
@@ -382,14 +386,20 @@ package security
 
 // ---- handshake entry points (C03, C07, C10) ------------------------------------------------------
 //@ func (*Authenticator).parseServerSecurityAd (a, ad) (result)
-//@   props C10
+//@   props C10 C03
 //@   assigns nothing
 //@   ensures fresh(result) && result != nil
+//@   ensures levels_as_sent: [C10 C03] (adKind[ad]["Authentication"] == 1 ==> result.Authentication == adStr[ad]["Authentication"]) && (adKind[ad]["Encryption"] == 1 ==> result.Encryption == adStr[ad]["Encryption"]) && (adKind[ad]["Authentication"] == 0 ==> result.Authentication == "") && (adKind[ad]["Encryption"] == 0 ==> result.Encryption == "")
+//@   ensures key_as_sent: [C10 C03] (adKind[ad]["ECDHPublicKey"] == 1 ==> result.ECDHPublicKey == adStr[ad]["ECDHPublicKey"]) && (adKind[ad]["ECDHPublicKey"] == 0 ==> result.ECDHPublicKey == "")
+//@   ensures command_as_sent: [C05 C10] (adKind[ad]["Command"] == 2 ==> result.Command == adInt[ad]["Command"])
 
 //@ func (*Authenticator).createClientSecurityAd (a) (result)
-//@   trusted
-//@   pure
-//@   nonnil
+//@   props C10 C03
+//@   requires given: a.config != nil
+//@   assigns nothing
+//@   ensures policy_as_configured: [C10 C03] result != nil && fresh(result) && adStr[result]["Authentication"] == a.config.Authentication && adKind[result]["Authentication"] == 1 && adStr[result]["Encryption"] == a.config.Encryption && adKind[result]["Encryption"] == 1
+//@   ensures key_advertised: [C10 C03] a.config.ECDHPublicKey != "" ==> adKind[result]["ECDHPublicKey"] == 1 && adStr[result]["ECDHPublicKey"] == a.config.ECDHPublicKey
+//@   ensures not_a_resumption: [C06] adKind[result]["UseSession"] == 0
 
 //@ func (*Authenticator).ClientHandshake (a, ctx) (result, err)
 //@   props C07 C06 C03
@@ -402,6 +412,10 @@ package security
 
 //@ func (*Authenticator).performFullAuthentication (a, ctx, cache) (result, err)
 //@   props C03 C10
+//@   assert before call Authenticator).negotiateSecurity #1 explicit_denial_honoured: [C10 C03] !(adKind[serverAd]["ReturnCode"] == 1 && adStr[serverAd]["ReturnCode"] != "" && adStr[serverAd]["ReturnCode"] != "AUTHORIZED")
+//@   assert before call Authenticator).handleClientAuthentication #1 answer_is_what_the_server_sent: [C10 C03] adKind[serverAd]["Authentication"] == 1 ==> negotiation.ServerConfig.Authentication == adStr[serverAd]["Authentication"]
+//@   assert before call Authenticator).handleClientAuthentication #1 peer_key_is_what_the_server_sent: [C10 C03] (adKind[serverAd]["ECDHPublicKey"] == 1 ==> negotiation.ServerConfig.ECDHPublicKey == adStr[serverAd]["ECDHPublicKey"]) && (adKind[serverAd]["ECDHPublicKey"] == 0 ==> negotiation.ServerConfig.ECDHPublicKey == "")
+//@   ensures post_auth_denial_honoured: [C03] err == nil ==> !(adKind[postAuthAd]["ReturnCode"] == 1 && adStr[postAuthAd]["ReturnCode"] != "AUTHORIZED")
 //@   nocall [C19] caller_context_threaded: context.Background
 //@   nocall [C19] caller_context_threaded2: context.WithoutCancel
 //@   nocall [C19] caller_context_threaded3: context.TODO
@@ -446,6 +460,7 @@ package security
 
 //@ func (*Authenticator).storeSession (a, negotiation, sessionID, durationSecs, leaseSecs)
 //@   props C06
+//@   assert before call NewSessionEntry #1 outcome_recorded_with_the_session: [C06] adKind[arg3]["Authenticated"] == 3 && adInt[arg3]["Authenticated"] == ite(negotiation.Authentication, 1, 0) && (negotiation.User != "" ==> adKind[arg3]["User"] == 1 && adStr[arg3]["User"] == negotiation.User) && adStr[arg3]["CryptoMethods"] == negotiation.NegotiatedCrypto
 //@   requires given: a.config != nil && negotiation != nil && negotiation.ServerConfig != nil
 //@   let keyed = len(negotiation.sharedSecret) > 0 && aesName(negotiation.NegotiatedCrypto)
 //@   assigns clockNow, when(keyed, lock(&GetSessionCache().mu)), when(keyed, mapof(GetSessionCache().sessions))
@@ -453,21 +468,26 @@ package security
 
 //@ func (*Authenticator).createPostAuthAd (a, negotiation) (result)
 //@   props C06 C03
+//@   ensures authorised_reply: [C03 C06] adStr[result]["ReturnCode"] == "AUTHORIZED" && adKind[result]["Sid"] == 1 && adStr[result]["Sid"] == negotiation.SessionId && adKind[result]["ValidCommands"] == 1
 //@   requires given: a.config != nil && negotiation != nil && negotiation.ServerConfig != nil
 //@   preserves security.SecurityConfig security.Authenticator stream.Stream
 //@   ensures outcome_kept: negotiation.SessionResumed == old(negotiation.SessionResumed) && negotiation.Encryption == old(negotiation.Encryption) && negotiation.Authentication == old(negotiation.Authentication) && negotiation.ServerConfig == old(negotiation.ServerConfig) && negotiation.ClientConfig == old(negotiation.ClientConfig)
 
 //@ func (*Authenticator).createServerSecurityAd (a, negotiation) (result)
-//@   trusted
-//@   pure
-//@   nonnil
+//@   props C10 C03
+//@   requires given: a.config != nil
+//@   assigns nothing
+//@   ensures answers_are_the_decision: [C10 C03] result != nil && fresh(result) && adKind[result]["Authentication"] == 1 && adStr[result]["Authentication"] == ite(negotiation.Authentication, "YES", "NO") && adKind[result]["Encryption"] == 1 && adStr[result]["Encryption"] == ite(negotiation.Encryption, "YES", "NO")
+//@   ensures key_advertised: [C10] a.config.ECDHPublicKey != "" ==> adKind[result]["ECDHPublicKey"] == 1 && adStr[result]["ECDHPublicKey"] == a.config.ECDHPublicKey
+//@   ensures chosen_methods_named: [C10] adStr[result]["AuthMethods"] == negotiation.NegotiatedAuth && adStr[result]["CryptoMethods"] == negotiation.NegotiatedCrypto && adKind[result]["ReturnCode"] == 0
 
 //@ func (*Authenticator).sendNegotiationFailureResponse (a, ctx, negotiation, negErr)
 //@   props C10
+//@   assert before call Message).PutClassAd #1 denial_is_explicit: [C10] adKind[arg2]["ReturnCode"] == 1 && adStr[arg2]["ReturnCode"] == "DENIED"
 //@   nocall [C19] caller_context_threaded: context.Background
 //@   nocall [C19] caller_context_threaded2: context.WithoutCancel
 //@   nocall [C19] caller_context_threaded3: context.TODO
-//@   requires given: a.stream != nil
+//@   requires given: a.stream != nil && a.config != nil
 
 //@ func (*Authenticator).ServerHandshakeWithMessage (a, ctx, msg, command) (result, err)
 //@   props C03 C06 C10
@@ -496,7 +516,7 @@ package security
 //@   nocall [C19] caller_context_threaded: context.Background
 //@   nocall [C19] caller_context_threaded2: context.WithoutCancel
 //@   nocall [C19] caller_context_threaded3: context.TODO
-//@   requires given: a.stream != nil
+//@   requires given: a.stream != nil && a.config != nil
 //@   assert before call os.OpenRoot #1 base_dir_only: [C18] arg0 == "/tmp"
 //@   assert before call os.Root).Mkdir #1 validated_leaf_only: [C18] arg1 == leaf && rootDir(arg0) == "/tmp"
 //@   ensures at_most_one_directory: [C18] fsMkdirs <= old(fsMkdirs) + 1
